@@ -405,6 +405,61 @@ def contract_cases():
     return out
 
 
+TYPED = {"pay": (abi.PaymentTransaction, 1), "keyreg": (abi.KeyRegisterTransaction, 2), "acfg": (abi.AssetConfigTransaction, 3),
+         "axfer": (abi.AssetTransferTransaction, 4), "afrz": (abi.AssetFreezeTransaction, 5), "appl": (abi.ApplicationCallTransaction, 6)}
+
+
+def typed_txn_driver(rep, versions, only=None):
+    """every typed transaction parameter kind x every actual transaction type in front of the call x
+    {constants left to the assembler, constants assembled by PyTeal} x position of the parameter: the call must be
+    accepted exactly when the transaction in that position has the declared type"""
+    for ver in versions:
+        for ac in (False, True):
+            for kind, (cls, enum) in TYPED.items():
+                for extra in (0, 1):       # a plain uint64 argument in front of the transaction parameter or not
+                    key = [ver, ac, kind, extra]
+                    if only is not None and key != only:
+                        continue
+
+                    def viol(why, text=None):
+                        rep.violations.append({
+                            "driver": "typed-txn", "size": 1 + extra,
+                            "title": "m(%s%s) v%d assemble_constants=%s: %s" % ("uint64," if extra else "", kind, ver, ac, why),
+                            "case": {"typed_txn": key}, "version": ver, "teal": text,
+                            "features": {"why": "typed-txn " + why.split(":")[0][:30]}})
+                    try:
+                        router = pt.Router("t", pt.BareCallActions(no_op=pt.OnCompleteAction.create_only(pt.Approve())),
+                                           clear_state=pt.Approve())
+
+                        def impl(*a):
+                            return pt.Log(pt.Concat(pt.Bytes("seen"), pt.Itob(a[-1].get().type_enum())))
+                        ns = {"__impl": impl}
+                        names = (["n"] if extra else []) + ["t"]
+                        exec("def m(%s):\n    return __impl(%s)\n" % (", ".join(names), ", ".join(names)), ns)
+                        fn = ns["m"]
+                        ann = {"n": abi.Uint64} if extra else {}     # in parameter order, as Python itself records them
+                        ann.update({"t": cls, "return": pt.Expr})
+                        fn.__annotations__ = ann
+                        router.add_method_handler(pt.ABIReturnSubroutine(fn))
+                        approval, _c, contract = router.compile_program(version=ver, assemble_constants=ac)
+                    except Exception as e:
+                        viol("does not build: %r" % (e,))
+                        continue
+                    sel = contract.methods[0].get_selector()
+                    pa = asm.assemble(approval)
+                    for actual in range(1, 7):
+                        first = interp.default_txn(TypeEnum=actual, Type=interp.TYPE_BYTES[actual])
+                        call = interp.default_txn(ApplicationArgs=[sel] + ([(9).to_bytes(8, "big")] if extra else []))
+                        res = interp.run(pa, interp.Ctx(mode="A", group=[first, call], group_index=1), fuel=20000)
+                        rep.add("traces_validated")
+                        want = actual == enum
+                        rep.outcomes["typed:%s" % res.verdict] = rep.outcomes.get("typed:%s" % res.verdict, 0) + 1
+                        if want and (res.verdict != "APPROVE" or res.logs != [b"seen" + actual.to_bytes(8, "big")]):
+                            viol("a %s transaction in front of the call is refused: %s %s" % (interp.TYPE_BYTES[actual].decode(), res.verdict, res.why), approval)
+                        elif not want and res.verdict == "APPROVE":
+                            viol("a %s transaction is accepted for a parameter declared %s" % (interp.TYPE_BYTES[actual].decode(), kind), approval)
+
+
 def run(tier):
     global _VERSIONS
     rep = common.Report(PID, tier)
@@ -417,6 +472,7 @@ def run(tier):
     rep.bounds["versions"] = list(_VERSIONS)
     for sh in common.pmap_shards(_worker, items, shard_size=3, order_seed=rep.seed):
         rep.merge(sh)
+    typed_txn_driver(rep, _VERSIONS)
     rep.counters["distinct_nontrivial"] = rep.counters.get("states", 0)
     rep.assumptions = ["algosdk AtomicTransactionComposer / abi codec as the ARC-4 client reference", "reference AVM"]
     if not rep.outcomes.get("APPROVE") or not rep.outcomes.get("wrong_txn:FAIL"):
@@ -426,6 +482,12 @@ def run(tier):
 
 def replay(case):
     out = {"counters": {}, "outcomes": {}, "violations": [], "samples": []}
+    if "typed_txn" in case["case"]:
+        rep = common.Report(PID, "quick")
+        typed_txn_driver(rep, (case["case"]["typed_txn"][0],), only=case["case"]["typed_txn"])
+        for v in rep.violations[:5]:
+            print("still violates:", v["title"][:300])
+        return bool(rep.violations)
     if "lifecycle" in case["case"]:
         from . import c08
         c08.check_lifecycle(case["case"], out, (case["version"],))
